@@ -6,6 +6,15 @@ var props = map[string]*PropSpec{}
 
 func reg(p *PropSpec) { props[p.ID] = p }
 
+func params(lazy bool, kv ...interface{}) func(c *sym.HarnessCfg, tier string) {
+	return func(c *sym.HarnessCfg, tier string) {
+		c.Lazy = lazy
+		for i := 0; i+1 < len(kv); i += 2 {
+			c.Params[kv[i].(string)] = kv[i+1].(int)
+		}
+	}
+}
+
 func init() {
 	reg(&PropSpec{
 		ID: "C01",
@@ -17,6 +26,24 @@ func init() {
 					c.Params["maxscript"] = 8
 				}
 			}},
+		},
+	})
+	reg(&PropSpec{
+		ID: "C02",
+		Harnesses: []HarnessSpec{
+			{Dir: "root", Name: "ZZ_C02_cash", Reach: []string{"accepted", "rejected"}, Tweak: params(true)},
+		},
+	})
+	reg(&PropSpec{
+		ID: "C03",
+		Harnesses: []HarnessSpec{
+			{Dir: "root", Name: "ZZ_C03_cash", Variant: "L112w3", Reach: []string{"accepted", "rejected"}, Tweak: params(true, "paylen", 104, "w", 3)},
+			{Dir: "root", Name: "ZZ_C03_cash", Variant: "L42w4", Reach: []string{"accepted"}, Tweak: params(true, "paylen", 34, "w", 4)},
+			{Dir: "root", Name: "ZZ_C03_cash", Variant: "L42w5", Tiers: "thorough", Reach: []string{"accepted"}, Tweak: params(true, "paylen", 34, "w", 5)},
+			{Dir: "root", Name: "ZZ_C03_cash", Variant: "L61w5", Tiers: "thorough", Reach: []string{"accepted"}, Tweak: params(true, "paylen", 53, "w", 5)},
+			{Dir: "root", Name: "ZZ_C03_cash", Variant: "L112w4", Tiers: "thorough", Reach: []string{"accepted"}, Tweak: params(true, "paylen", 104, "w", 4)},
+			{Dir: "bech32", Name: "ZZ_C03_bech32", Variant: "D88w3", Reach: []string{"accepted", "rejected"}, Tweak: params(true, "datalen", 82, "w", 3)},
+			{Dir: "bech32", Name: "ZZ_C03_bech32", Variant: "D88w4", Tiers: "thorough", Reach: []string{"accepted"}, Tweak: params(true, "datalen", 82, "w", 4)},
 		},
 	})
 }
